@@ -9,6 +9,7 @@ pub mod c03;
 pub mod c04;
 pub mod c11;
 pub mod c12;
+pub mod c13;
 pub mod c16;
 pub mod c20;
 
@@ -41,6 +42,10 @@ pub fn run(ctx: &mut Ctx) -> bool {
         "C12" => {
             ctx.rule = c12::RULE.into();
             c12::run(ctx)
+        }
+        "C13" => {
+            ctx.rule = c13::RULE.into();
+            c13::run(ctx)
         }
         "C16" => {
             ctx.rule = c16::RULE.into();
